@@ -707,7 +707,7 @@ impl ElementRaw {
                 })?;
                 if src_parent.downgrade() == self_weak {
                     // move new_element to a different position within the current element
-                    self.move_element_position(move_element, position)
+                    self.move_element_position(move_element, position, end_pos)
                 } else {
                     // move the element within the same model
                     self.move_element_local(self_weak, move_element, position, model, version)
@@ -722,10 +722,16 @@ impl ElementRaw {
     }
 
     /// move a sub element within the current element to a different position
-    fn move_element_position(&mut self, move_element: &Element, position: usize) -> Result<Element, AutosarDataError> {
-        // need to check self.content.len() here, because find_element_insert_pos() will allow values up to len()+1
-        // that's correct when adding elements to self.content, but not strict enough here
-        if position < self.content.len() {
+    fn move_element_position(
+        &mut self,
+        move_element: &Element,
+        position: usize,
+        end_pos: usize,
+    ) -> Result<Element, AutosarDataError> {
+        // need to check against end_pos (which is at most self.content.len()) here, because calc_element_insert_range()
+        // allows values up to end_pos. That's correct when adding elements to self.content, but not strict enough here:
+        // the moved element itself occupies one of the positions before end_pos, so the last valid target index is end_pos - 1
+        if position < end_pos {
             let current_position = self
                 .content
                 .iter()
